@@ -32,7 +32,7 @@ class ForeignXmlGen:
     def name(self, prefixes, default):
         r = self.r
         loc = r.choice(["e1", "e2", "a1", "ag1", "x", "y.z", "n-1"]) + str(r.randint(0, 3))
-        if default and r.random() < 0.2:
+        if default and r.random() < getattr(self, "bare_p", 0.2):
             return loc
         return r.choice(prefixes) + ":" + loc
 
@@ -89,7 +89,24 @@ class ForeignXmlGen:
         label = kind
         if kind in SUBTYPE_EL and r.random() < 0.3:
             label, _t = r.choice(SUBTYPE_EL[kind])
-        el = etree.SubElement(parent, q("prov:" + label, nsmap))
+        local = None
+        if r.random() < 0.15:
+            # the record element declares a default namespace of its own (xmlns="…"): one the document already binds to a prefix,
+            # the enclosing default once more, or yet another one; several bare names are then read inside it
+            local = r.choice([nsmap["ex"], nsmap["ex"], "http://default.example/", "http://second-default.example/",
+                              "http://third-default.example/", "http://fourth-default.example/"])
+        el = etree.SubElement(parent, q("prov:" + label, nsmap), nsmap=({None: local} if local else None))
+        if local:
+            default = True
+            self.bare_p = 0.7
+            try:
+                return self._record_body(el, kind, label, nsmap, prefixes, default)
+            finally:
+                self.bare_p = 0.2
+        return self._record_body(el, kind, label, nsmap, prefixes, default)
+
+    def _record_body(self, el, kind, label, nsmap, prefixes, default):
+        r = self.r
         if kind in ELEMENTS or r.random() < 0.4:
             el.set("{%s}id" % PROV, self.name(prefixes, default))
         if r.random() < 0.1:
